@@ -97,6 +97,9 @@ def parse_tlc(out):
     m = re.search(r"Error: Action property (\w+) is violated", out)
     if m:
         res["violated"] = m.group(1)
+    m = re.search(r"Error: Temporal property (\w+) was violated", out)
+    if m:
+        res["violated"] = m.group(1)
     if "Temporal properties were violated" in out:
         res["violated"] = res["violated"] or "temporal"
     if res["violated"] is None and not res["finished"]:
